@@ -142,7 +142,12 @@ func (r *refRule) batch(nodeID string, pts data.Points) []write {
 		run, other = r.inactive, r.actions
 	}
 	for _, a := range run {
-		out = append(out, write{Node: a.NodeID, Type: a.PointType, Value: a.Value, Text: a.ValueText, Origin: r.id})
+		// an action that names no target node or no point type cannot write (the
+		// code reports an error point, which is not compared); it does not keep
+		// the rest of the list from running
+		if a.NodeID != "" && a.PointType != "" {
+			out = append(out, write{Node: a.NodeID, Type: a.PointType, Value: a.Value, Text: a.ValueText, Origin: r.id})
+		}
 		out = append(out, write{Node: a.ID, Type: data.PointTypeActive, Value: 1, Origin: r.id})
 	}
 	for _, a := range other {
@@ -215,6 +220,17 @@ func genCondition(t *rapid.T, i int) (client.Condition, schedref.Sched) {
 }
 
 func genAction(t *rapid.T, id string) client.Action {
+	a := genCompleteAction(t, id)
+	switch rapid.IntRange(0, 11).Draw(t, "incompleteAction") {
+	case 0:
+		a.NodeID = ""
+	case 1:
+		a.PointType = ""
+	}
+	return a
+}
+
+func genCompleteAction(t *rapid.T, id string) client.Action {
 	return client.Action{
 		ID: id, Parent: "rule1", Action: data.PointValueSetValue,
 		Active:    rapid.Bool().Draw(t, "actionActive"),
@@ -384,6 +400,9 @@ func TestPropRule(t *testing.T) {
 					t.Fatalf("rule wrote undecodable points on %s", m.Subject)
 				}
 				for _, p := range ps {
+					if p.Type == data.PointTypeError {
+						continue // error reports (incomplete actions) are not part of the statement
+					}
 					got = append(got, write{Node: strings.TrimPrefix(m.Subject, "p."), Type: p.Type, Value: p.Value, Text: p.Text, Origin: p.Origin})
 				}
 			}
@@ -461,6 +480,12 @@ func TestPropRule(t *testing.T) {
 		sort.Strings(cl)
 		if ref.changes >= 2 {
 			cl = append(cl, "ruleChanged>=2")
+		}
+		for _, a := range append(append([]client.Action{}, cfg.Actions...), cfg.ActionsInactive...) {
+			if (a.NodeID == "" || a.PointType == "") && ref.changes >= 1 {
+				cl = append(cl, "incompleteActionInRunList")
+				break
+			}
 		}
 		stats.Case(nt, stats.Digest(descRule(cfg), fmt.Sprint(hist)), cl...)
 		if nt && stats.WantSample() {
